@@ -402,7 +402,7 @@ def run_shard(ctx):
     stats.extra["A_transitions"] = transitions
     stats.extra["A_configs_explored"] = n_run
     stats.extra["A_configs_explored_to_closure"] = n_closed
-    n = 1500 if thorough else 120
+    n = 6000 if thorough else 120
     core.hyp_search(storegen.history_strategy(80 if thorough else 30, backends=("fsc",)),
                     lambda c: execute_b(c, ctx.scratch), stats, max_examples=n,
                     seed=core.hash64(ctx.seed, ID, ctx.shard), findings=ctx.findings,
